@@ -300,7 +300,7 @@ def obligations(tier):
     # --drop-water equals deleting the water records (C07's record harness, with waters in HETATM and in ATOM records)
     from . import c07
 
-    wk = ["water-in-atom-record", "hetatm-water", "hetatm-water-serial-10000", "hetatm-water-serial-of-another-atom", "atom-new-residue", "hetatm-ligand", "TER"]
+    wk = ["water-in-atom-record", "hetatm-water", "hetatm-water-serial-10000", "hetatm-water-serial-of-another-atom", "hetatm-ligand-numbered-like-a-water", "atom-new-residue", "hetatm-ligand", "TER"]
     for k in range(len(wk)):
         obs.append(Obligation(f"drop-water-first={wk[k]}", c07.h_records, dict(nlines=3, kinds=wk, models="plain", drop=True, first=k), group="records", time_cap=1500, max_paths=100000))
     obs += c07._drop_name_obligations()  # --drop-water removes water records only (symbolic residue name)
